@@ -279,6 +279,12 @@ func genOp(r *rand.Rand, nk int, added, mine *[maxKeys]bool, locked *bool, pass 
 			op.Kind = "signers"
 		case w < 82:
 			op.Kind = "ext"
+		case w < 84:
+			// a request of the legacy protocol 1 (request identities, add,
+			// remove, remove all): answered, and without any effect on the
+			// protocol 2 identities
+			op.Kind = "legacy"
+			op.Flags = []uint32{1, 9, 9, 7, 8}[r.IntN(5)]
 		default:
 			if *sleeps >= 10 {
 				continue
@@ -586,6 +592,9 @@ func step(state, input, output any) (bool, any) {
 		}
 		// expired or ambiguous: whether an expired key that was never looked
 		// at again is still "found" is not specified
+		return true, st
+	case "legacy":
+		// protocol 1 requests concern other identities: no effect here
 		return true, st
 	case "removeall":
 		if st.Locked {
@@ -989,7 +998,11 @@ func (r *run) do(ci, oi int, ag sshagent.ExtendedAgent, ps *pipeState, op Op) *h
 	}
 	h.in.T0 = int64(r.c.Sim.Now())
 	h.call = rt.Event("c%d.%d call %s", ci, oi, describeIn(h.in))
-	h.out = r.apply(ag, &op, pk, &h.in, true)
+	if op.Kind == "legacy" {
+		h.out = r.legacy(ci, oi, byte(op.Flags))
+	} else {
+		h.out = r.apply(ag, &op, pk, &h.in, true)
+	}
 	h.in.T1 = int64(r.c.Sim.Now())
 	if !h.out.OK && ps != nil && ps.destructive && ps.dead {
 		// the reply may have been lost: the request may or may not have
@@ -1003,6 +1016,31 @@ func (r *run) do(ci, oi int, ag sshagent.ExtendedAgent, ps *pipeState, op Op) *h
 		rt.Probe("op-spans-clock-advance")
 	}
 	return h
+}
+
+// legacy sends one protocol 1 request (a single opcode byte) to a ServeAgent
+// over the modelled keyring on a connection of its own and waits for the
+// reply.
+func (r *run) legacy(ci, oi int, opcode byte) (o outp) {
+	a, b, _, _ := simnet.Pipe(fmt.Sprintf("legacy%d.%d", ci, oi))
+	r.rawConns = append(r.rawConns, a)
+	go func() {
+		rt.SetName(fmt.Sprintf("serve-legacy%d.%d", ci, oi))
+		rt.SetDaemon()
+		sshagent.ServeAgent(r.kr, b)
+		b.Close()
+	}()
+	if _, err := a.Write([]byte{0, 0, 0, 1, opcode}); err != nil {
+		return o
+	}
+	var hdr [5]byte
+	if _, err := io.ReadFull(a, hdr[:]); err != nil {
+		return o
+	}
+	rt.Probe(fmt.Sprintf("legacy-opcode-%d-reply-%d", opcode, hdr[4]))
+	o.OK = true
+	a.Close()
+	return o
 }
 
 // apply calls the agent. It is also used to produce valid request frames (ag
@@ -1259,6 +1297,9 @@ func (rc *recorder) Read(p []byte) (int, error) {
 func (r *run) validFrame(op Op) []byte {
 	if op.Kind == "sleep" || op.Kind == "signers" {
 		op.Kind = "list"
+	}
+	if op.Kind == "legacy" {
+		return []byte{0, 0, 0, 1, byte(op.Flags)}
 	}
 	rec := &recorder{}
 	cl := sshagent.NewClient(rec)
